@@ -4,7 +4,7 @@ P="$1"; PROP="$2"; TIER="${3:-quick}"
 cd /verif || exit 2
 git -C /repo diff --quiet || { echo "/repo not clean"; exit 2; }
 git -C /repo apply "$P" || { echo "patch does not apply"; exit 2; }
-./check "$PROP" --tier "$TIER" > /tmp/seed_$PROP.log 2>&1
+VERIF_EVIDENCE_DIR=/tmp/seed-evidence ./check "$PROP" --tier "$TIER" > /tmp/seed_$PROP.log 2>&1
 RC=$?
 git -C /repo checkout -- .
 echo "rc=$RC $(grep -c '^VIOLATION' /tmp/seed_$PROP.log) violations; $(grep '^SUMMARY' /tmp/seed_$PROP.log)"
